@@ -690,6 +690,16 @@ func famC04(e *emitter, g *gen.G, thorough bool) {
 		}
 		e.emit(fmt.Sprintf("maps/%d", idx), ns2[0])
 	}
+	// the ROOT is a list that one of its elements holds (below and beyond the decoder's preallocation of 1024)
+	for _, n := range []int{3, 1024, 1025, 1100} {
+		root := make([]*zoo.Node, n)
+		for i := range root {
+			root[i] = &zoo.Node{Name: fmt.Sprintf("r%d", i)}
+		}
+		root[1].L = root
+		root[n-1].A = root[0]
+		e.emit(fmt.Sprintf("rootlist/%d", n), root)
+	}
 	// a cycle that runs THROUGH a list: an element of the list holds that very list, so the back-reference
 	// is read while the list is still being read (with and without names for the list types)
 	for idx := 0; idx < 12*3; idx++ {
